@@ -30,6 +30,13 @@ struct Floating_Real_Open_Interval_Info_Policy {
 typedef Interval_Info_Bitset<unsigned int, Floating_Real_Open_Interval_Info_Policy> FP_Info;
 typedef Interval<double, FP_Info> FP_Interval;
 typedef Linear_Form<FP_Interval> FP_Linear_Form;
+// The documented interface of the destination of export_interval_constraints<U>().
+struct Interval_Store {
+  dimension_type space_dimension() const;
+  void set_empty();
+  bool restrict_lower(dimension_type dim, const double& lb);
+  bool restrict_upper(dimension_type dim, const double& ub);
+};
 }
 namespace Parma_Polyhedra_Library {
 template void BD_Shape<double>::affine_form_image<verif_driver::FP_Info>(Variable, const verif_driver::FP_Linear_Form&);
@@ -40,4 +47,9 @@ template void Octagonal_Shape<double>::affine_form_image<verif_driver::FP_Info>(
 template void Octagonal_Shape<double>::refine_with_linear_form_inequality<verif_driver::FP_Info>(const verif_driver::FP_Linear_Form&, const verif_driver::FP_Linear_Form&);
 template void Octagonal_Shape<double>::generalized_refine_with_linear_form_inequality<verif_driver::FP_Info>(const verif_driver::FP_Linear_Form&, const verif_driver::FP_Linear_Form&, Relation_Symbol);
 template void Octagonal_Shape<double>::refine_fp_interval_abstract_store<verif_driver::FP_Info>(Box<verif_driver::FP_Interval>&) const;
+}
+
+namespace Parma_Polyhedra_Library {
+template void BD_Shape<double>::export_interval_constraints<verif_driver::Interval_Store>(verif_driver::Interval_Store&) const;
+template void Octagonal_Shape<double>::export_interval_constraints<verif_driver::Interval_Store>(verif_driver::Interval_Store&) const;
 }
